@@ -35,8 +35,16 @@ import (
 // Limit is the per-block transaction limit of the pool.
 const Limit = service.VerifTxCountPerBlock
 
-// Height is the block height under which the pool is exercised (all forks active).
-const Height = 10
+// Height is the block height under which the pool is exercised.  With the dev fork
+// table every proposal (except the unreachable 025) is active from height 12 on
+// (020 at 10, 023 at 12, 026 at 1 in the fixture, the others at 0).
+var Height uint64 = 20
+
+// SetHeight switches the fork configuration: the pool reads the process-wide block height.
+func SetHeight(h uint64) {
+	Height = h
+	common.SetBlockHeight(h)
+}
 
 // TxSpec describes one transaction of a universe.
 type TxSpec struct {
@@ -165,7 +173,7 @@ func Boot() error {
 	if err := node.Boot(node.ForksAllOn, true); err != nil {
 		return err
 	}
-	common.SetBlockHeight(Height)
+	SetHeight(Height)
 	service.VerifSetTxPoolLogger(seelog.Disabled)
 	booted = true
 	return nil
@@ -334,7 +342,7 @@ func (im *Impl) hashOf(i int) common.Hash {
 // Transactions = executed ones, Header.EvictedTxs = evicted ones (no receipt), as
 // the block executor produces them with all forks active.
 func (im *Impl) BuildBlock(txs, evicted []int) Block {
-	height := uint64(Height + len(im.Blocks))
+	height := Height + uint64(len(im.Blocks))
 	hd := &types.BlockHeader{Height: height, EvictedTxs: make([]common.Hash, 0)}
 	b := &types.Block{Header: hd, Transactions: make([]*types.Transaction, 0, len(txs))}
 	seed := fmt.Sprintf("c17-block|%d|", height)
